@@ -564,6 +564,9 @@ class PageXMLTableCell(PageXMLDoc):
 
 class PageXMLTextRegion(PageXMLDoc):
 
+    # main type of the class, known before the children are attached in __init__
+    _main_type = 'text_region'
+
     def __init__(self, doc_id: str = None, doc_type: Union[str, List[str]] = None,
                  metadata: Dict[str, any] = None, coords: Coords = None,
                  text_regions: List[PageXMLTextRegion] = None,
@@ -574,7 +577,7 @@ class PageXMLTextRegion(PageXMLDoc):
         super().__init__(doc_id=doc_id, doc_type="text_region", metadata=metadata,
                          coords=coords, reading_order=reading_order,
                          reading_order_attributes=reading_order_attributes, orientation=orientation)
-        self.main_type = 'text_region'
+        self.main_type = self._main_type
         self.text_regions: List[PageXMLTextRegion] = text_regions if text_regions is not None else []
         self.table_regions: List[PageXMLTableRegion] = table_regions if table_regions is not None else []
         for table in self.table_regions:
@@ -770,6 +773,8 @@ class PageXMLTextRegion(PageXMLDoc):
 
 class PageXMLColumn(PageXMLTextRegion):
 
+    _main_type = 'column'
+
     def __init__(self, doc_id: str = None, doc_type: Union[str, List[str]] = None,
                  metadata: Dict[str, any] = None, coords: Coords = None,
                  text_regions: List[PageXMLTextRegion] = None,
@@ -809,6 +814,8 @@ class PageXMLColumn(PageXMLTextRegion):
 
 
 class PageXMLPage(PageXMLTextRegion):
+
+    _main_type = 'page'
 
     def __init__(self, doc_id: str = None, doc_type: Union[str, List[str]] = None,
                  metadata: Dict[str, any] = None, coords: Coords = None,
@@ -945,6 +952,8 @@ class PageXMLPage(PageXMLTextRegion):
 
 
 class PageXMLScan(PageXMLTextRegion):
+
+    _main_type = 'scan'
 
     def __init__(self, doc_id: str = None, doc_type: Union[str, List[str]] = None,
                  metadata: Dict[str, any] = None, coords: Coords = None,
